@@ -341,8 +341,10 @@ def cfg_c15(rng):
 
 
 def cfg_c16(rng):
+    # half of the cases add a pair of distinct keys with the same FNV-1a-64 hash (the hash of the key index)
     p = prof_base(rng, time_mode=rng.choice(['mono', 'mono', 'rand']),
-                  keyset=['-', '61', '62', '6100', '00'], p_tomb=0.35)
+                  keyset=['-', '61', '62', '6100', '00'] + (list(rng.choice(gens.COLLISIONS)) if rng.random() < 0.5 else []),
+                  p_tomb=0.35)
     p['weights'] = w(compact=30, reopen=6)
     p['weights']['del'] = 6
     return p
@@ -379,7 +381,7 @@ def probes_c15(sh, rng):
 
 
 def probes_c16(sh, rng):
-    return ['probe scan', 'probe keys -,61,62,6100,00']
+    return ['probe scan', 'probe keys -,61,62,6100,00,' + ','.join(k for pr in gens.COLLISIONS for k in pr)]
 
 
 def cfg_c20(rng):
@@ -489,7 +491,9 @@ reg(HistProp('C02', cfg_c02, probes_c02, quick=500, thorough=20000,
                   'non-trivial as C01', nontrivial=has_multi_layout))
 reg(HistProp('C03', cfg_c01, probes_c03, quick=250, thorough=8000,
              rule='after every op: Consume(off,max) for every off in [-5,next+2] x max in {1,2,3,7,40} plus the feed-back scan; '
-                  'non-trivial as C01', nontrivial=has_multi_layout))
+                  'before and after them a Consume at a random or resumed absolute offset; plus "resume" cases (a cursor kept '
+                  'across the removal of whole earlier segments); non-trivial as C01', nontrivial=has_multi_layout,
+             extra_cases=lambda tier: resume_cases(tier)))
 reg(HistProp('C04', cfg_c01, probes_c04, quick=400, thorough=12000,
              rule='after every op: Get(off) for off in {-2,-1} and [0,next+2], Consume(off,1) for agreement; non-trivial as C01',
              nontrivial=has_multi_layout))
@@ -572,6 +576,46 @@ reg(HistProp('C11', cfg_c11, probes_c11, quick=300, thorough=9000,
              nontrivial=has_multi_layout))
 
 
+def resume_cases(tier):
+    """a consumer that keeps its cursor across changes of the segment list: many small segments, a Consume in a middle
+    segment, then the removal of whole earlier segments (trim by offset to a segment base, or a Delete of every message
+    of one segment), then a Consume at the same cursor - with no read from the oldest offset in between"""
+    out = []
+    for i in range(40 if tier == 'quick' else 600):
+        rng = random.Random(case_seed(0, 'resume', i))
+        keys, times = rng.choice([(0, 0), (1, 1), (1, 0), (0, 1)])
+        ops = ['open 0 %d %d 0 1 0 0 2 0 0' % (keys, times)]     # Rollover 1: every batch gets a segment of its own
+        t, nxt, segs = 100, 0, []
+        for _ in range(rng.randrange(5, 10)):
+            n = rng.choice([1, 2, 3])
+            ms = []
+            for _ in range(n):
+                t += rng.choice([0, 1])
+                ms.append('%d|%s|%s' % (t, rng.choice(['61', '62', '-']), gens.hexbytes(rng, rng.choice([1, 3, 8]))))
+            ops.append('pub ' + ' '.join(ms))
+            segs.append(list(range(nxt, nxt + n)))
+            nxt += n
+        for _ in range(rng.randrange(1, 4)):
+            if len(segs) < 4:
+                break
+            k = rng.randrange(1, len(segs) - 2)          # the segment the consumer is in: not the first, two more after it
+            x = rng.choice(segs[k])
+            ops.append('cons %d %d' % (x, rng.choice([1, 2, 40])))
+            if rng.random() < 0.5:
+                j = rng.randrange(1, k + 1)               # trim everything below the base of segment j <= k
+                ops.append('trimo %d' % segs[j][0])
+                segs = segs[j:]
+            else:
+                j = rng.randrange(0, k)                   # delete every message of an earlier segment
+                ops.append('del ' + ','.join(str(o) for o in segs[j]))
+                segs = segs[:j] + segs[j + 1:]
+            ops.append('cons %d %d' % (min(x + rng.choice([0, 0, 1]), nxt), rng.choice([1, 2, 40])))
+            ops.append('probe scan')
+        ops += ['stat', 'close']
+        out.append(('resume%d' % i, ops))
+    return out
+
+
 def neg_cases(tier):
     out = []
     for i in range(20 if tier == 'quick' else 300):
@@ -582,6 +626,8 @@ def neg_cases(tier):
 
 
 REG['C17'].also = ('C01', 'C02', 'C03', 'C04', 'C09', 'C10', 'C12')
+# C12: "every other message keeps its offset and content" - the scans after a Delete are judged for C12 as well
+REG['C12'].also = ('C01', 'C03')
 
 
 def get(pid):
